@@ -40,13 +40,7 @@ func (a *c05) wgCall(ci ssa.CallInstruction, name string) bool {
 func (a *c05) checkWaiterReuse() {
 	r := a.r
 	isWG := false
-	if st, ok := a.p.Named("cron", "Cron").Underlying().(*types.Struct); ok {
-		for i := 0; i < st.NumFields(); i++ {
-			if st.Field(i).Name() == a.fJobWaiter.Field && namedKey(st.Field(i).Type()) == "sync.WaitGroup" {
-				isWG = true
-			}
-		}
-	}
+	isWG = a.jobWaiterIsWG
 	n := 0
 	for _, fn := range a.funcs {
 		allInstrs(fn, func(in ssa.Instruction) {
